@@ -430,8 +430,14 @@ class _StickySink:
 
     def close(self) -> None:
         """Close the bound session via the callback; signal the response middleware."""
+        sc = _current_session_context.get()
+        closing_own_mint = self.mint_token is not None and sc is not None and sc.session_id == self.session_id
         self._close_callback()
         self.closed = True
+        if closing_own_mint:
+            # The session this request opened is gone again; handing its
+            # token to the client would leave it tracking a dead session.
+            self.mint_token = None
 
 
 # ---------------------------------------------------------------------------
